@@ -189,7 +189,7 @@ void run_plain(const P& p, int gi, long idx, int mode, const std::string& input)
 
 // grammars with contextual functors: mode selects the context category
 //  20 lvalue Ctx   21 const lvalue Ctx   22 rvalue temporary Ctx   23 move-only lvalue MoCtx   24 lvalue, verbose
-//  25 lvalue (ctx,buf,stream)   26 temporary (ctx,buf,stream)   27 lvalue (ctx,buf)   28 std::move(move-only) (ctx,buf,stream)   29 std::move(Ctx) with options   30 std::move(move-only) (ctx,buf)   31 lvalue of a class with an overloaded operator&
+//  25 lvalue (ctx,buf,stream)   26 temporary (ctx,buf,stream)   27 lvalue (ctx,buf)   28 std::move(move-only) (ctx,buf,stream)   29 std::move(Ctx) with options   30 std::move(move-only) (ctx,buf)   31 lvalue of a class with an overloaded operator&   32 long lvalue (scalar context)   33 pointer lvalue
 template<class P>
 void run_ctx(const P& p, int gi, long idx, int mode, const std::string& input)
 {
@@ -263,6 +263,18 @@ void run_ctx(const P& p, int gi, long idx, int mode, const std::string& input)
             AmpCtx ctx; ctx_expected = std::addressof(ctx);
             { auto r = p.context_parse(ctx, o, b, ss); c.res = r.has_value(); c.root = root_id(r); }
             counter_after = ctx.counter;
+        }
+        else if (mode == 32)
+        {
+            long ctx = 0; ctx_expected = std::addressof(ctx);
+            { auto r = p.context_parse(ctx, o, b, ss); c.res = r.has_value(); c.root = root_id(r); }
+            counter_after = ctx;
+        }
+        else if (mode == 33)
+        {
+            Ctx obj; Ctx* pc = std::addressof(obj); ctx_expected = std::addressof(pc);
+            { auto r = p.context_parse(pc, o, b, ss); c.res = r.has_value(); c.root = root_id(r); }
+            counter_after = obj.counter;
         }
         else if (mode == 30)
         {
